@@ -252,6 +252,8 @@ def run(ctx):
                 "model and implementation compared after every operation (sets, lmax_adaptive, return value, scheme, closed form); "
                 "a case is one history, distinct by (dim,lmin,lmax,op list), non-trivial if at least one update was accepted or dim>=2")
     drv = ctx.driver("drv_c01")
+    import c01_gen
+    c01_gen.run(ctx, drv, run_history)       # translator tie: regenerate the Lean definitions from the current source
     n = 300 if not thorough else 4000
     budget = 100 if not thorough else 600
     for k in range(n):
